@@ -41,12 +41,14 @@ Inductive ifname :=
 Inductive req :=
 | RTypePat (pkg name : string)       (* a qualified name inside a Type.Is / Underlying().Is / SinkType.Is pattern *)
 | RIface (n : ifname)                (* Implements("...") *)
-| RFuncRef (pkg tname meth : string). (* HasMethod("pkg.Type.Method") *)
+| RFuncRef (pkg tname meth : string) (* HasMethod("pkg.Type.Method") *)
+| RTypeExpr (qs : list (string * string)). (* a type string with several qualified names (`map[foo.K]io.Reader`), in source order *)
 
 Inductive resolved :=
 | ResType (path name : string)       (* the pattern node opNamed{path, name} *)
 | ResIface (path name : string)
-| ResMethod (path tname meth : string).
+| ResMethod (path tname meth : string)
+| ResTypes (ps : list (string * string)).   (* one opNamed{path, name} node per qualified name of the type string *)
 
 (* what the importer and go/types say about a package-level name (trusted components) *)
 Inductive tkind := KIface (methods : list string) | KOther.
@@ -67,12 +69,24 @@ Section Resolve.
   Definition pkg_path (t : itab) (pkg : string) : string :=
     match lookup t pkg with Some p => p | None => pkg end.
 
+  (* every qualified name of a type string is looked up in the table; one that is not bound makes the whole string
+     unresolvable (typematch.parseExpr: a nil sub-pattern is passed upwards by every type constructor -- C20Parse.v) *)
+  Fixpoint lookup_all (t : itab) (qs : list (string * string)) : option (list (string * string)) :=
+    match qs with
+    | [] => Some []
+    | (pkg, name) :: r => match lookup t pkg with
+                          | None => None
+                          | Some p => match lookup_all t r with Some ps => Some ((p, name) :: ps) | None => None end
+                          end
+    end.
+
   Definition resolve (t : itab) (r : req) : option resolved :=
     match r with
     | RTypePat pkg name => match lookup t pkg with Some p => Some (ResType p name) | None => None end
     | RIface (IQual pkg name) => find_iface (pkg_path t pkg) name
     | RIface (IFqn path name) => find_iface path name
     | RFuncRef pkg tname meth => find_method (pkg_path t pkg) tname meth
+    | RTypeExpr qs => match lookup_all t qs with Some ps => Some (ResTypes ps) | None => None end
     end.
 
   (* rules are loaded in order; the first unresolvable name aborts the load *)
@@ -124,6 +138,18 @@ Section Resolve.
 
   Definition doc_path imps std pkg : string := match doc_binding imps std pkg with Some p => p | None => pkg end.
 
+  Fixpoint doc_all (imps : list (string * string)) (std : scope) (qs : list (string * string)) : option (list (string * string)) :=
+    match qs with
+    | [] => Some []
+    | (pkg, name) :: r => match doc_binding imps std pkg with
+                          | None => None
+                          | Some p => match world p name with
+                                      | None => None
+                                      | Some _ => match doc_all imps std r with Some ps => Some ((p, name) :: ps) | None => None end
+                                      end
+                          end
+    end.
+
   Definition doc_resolve (imps : list (string * string)) (std : scope) (r : req) : option resolved :=
     match r with
     | RTypePat pkg name => match doc_binding imps std pkg with
@@ -133,6 +159,7 @@ Section Resolve.
     | RIface (IQual pkg name) => find_iface (doc_path imps std pkg) name
     | RIface (IFqn path name) => find_iface path name
     | RFuncRef pkg tname meth => find_method (doc_path imps std pkg) tname meth
+    | RTypeExpr qs => match doc_all imps std qs with Some ps => Some (ResTypes ps) | None => None end
     end.
 
   (* ---------------------------------------------------------------- theorems *)
@@ -187,6 +214,7 @@ Section Resolve.
   Definition typepat_known (imps : list (string * string)) (std : scope) (r : req) : Prop :=
     match r with
     | RTypePat pkg name => forall p, doc_binding imps std pkg = Some p -> world p name <> None
+    | RTypeExpr qs => Forall (fun q => forall p, doc_binding imps std (fst q) = Some p -> world p (snd q) <> None) qs
     | _ => True
     end.
 
@@ -201,9 +229,15 @@ Section Resolve.
     assert (LK : forall name, lookup (s' :: [std]) name = doc_binding (g_imports g) std name).
     { intros name. unfold doc_binding. cbn. rewrite L. destruct (last_import (g_imports g) name); [reflexivity|].
       destruct (sassoc name std); reflexivity. }
-    destruct r as [pkg name|[pkg name|path name]|pkg tn m]; cbn [resolve doc_resolve]; unfold pkg_path, doc_path; rewrite ?LK; try reflexivity.
-    cbn in K. destruct (doc_binding (g_imports g) std pkg) as [p|]; [|reflexivity].
-    specialize (K p eq_refl). destruct (world p name); [reflexivity|contradiction].
+    destruct r as [pkg name|[pkg name|path name]|pkg tn m|qs]; cbn [resolve doc_resolve]; unfold pkg_path, doc_path; rewrite ?LK; try reflexivity.
+    - cbn in K. destruct (doc_binding (g_imports g) std pkg) as [p|]; [|reflexivity].
+      specialize (K p eq_refl). destruct (world p name); [reflexivity|contradiction].
+    - cbn in K. assert (E : lookup_all (s' :: [std]) qs = doc_all (g_imports g) std qs).
+      { induction qs as [|[pkg name] qs IH]; [reflexivity|]. inversion K as [|? ? K1 K2]; subst. cbn [lookup_all doc_all].
+        rewrite LK. cbn in K1. destruct (doc_binding (g_imports g) std pkg) as [p|] eqn:D; [|reflexivity].
+        assert (W : world p name <> None) by (apply K1; first [exact D | reflexivity]).
+        destruct (world p name); [|contradiction]. rewrite (IH K2). reflexivity. }
+      rewrite E. reflexivity.
   Qed.
 
   (* the resolution of a whole group inside load_group is the documented one *)
@@ -250,6 +284,21 @@ Section Resolve.
       - rewrite Hr. reflexivity.
       - destruct (resolve t2 r0); [|reflexivity]. rewrite (IH Hin). reflexivity. }
     rewrite RA. destruct (leave t2); reflexivity.
+  Qed.
+  (* a type string is unresolvable exactly when one of its qualified names is: the name that is not bound may sit anywhere *)
+  Theorem type_expr_unresolvable_iff t qs :
+    resolve t (RTypeExpr qs) = None <-> exists pkg name, In (pkg, name) qs /\ resolve t (RTypePat pkg name) = None.
+  Proof.
+    cbn [resolve]. induction qs as [|[pkg name] qs IH]; cbn [lookup_all].
+    - split; [discriminate|]. intros (? & ? & [] & _).
+    - destruct (lookup t pkg) as [p|] eqn:L.
+      + destruct (lookup_all t qs) as [ps|] eqn:A.
+        * split; [discriminate|]. intros (pkg' & name' & [E|Hin] & R).
+          -- inversion E; subst. rewrite L in R. discriminate.
+          -- destruct IH as [_ IH]. specialize (IH (ex_intro _ pkg' (ex_intro _ name' (conj Hin R)))). discriminate.
+        * split; [|reflexivity]. intros _. destruct IH as [IH _]. destruct (IH eq_refl) as (pkg' & name' & Hin & R).
+          exists pkg', name'. split; [right; exact Hin|exact R].
+      + split; [|reflexivity]. intros _. exists pkg, name. split; [left; reflexivity|]. rewrite L. reflexivity.
   Qed.
 End Resolve.
 
@@ -377,6 +426,7 @@ Definition show_res (r : resolved) : string :=
   | ResType p n => "ResType " ++ p ++ " " ++ n
   | ResIface p n => "ResIface " ++ p ++ " " ++ n
   | ResMethod p t m => "ResMethod " ++ p ++ " " ++ t ++ " " ++ m
+  | ResTypes ps => "ResTypes" ++ String.concat "" (map (fun pn => " " ++ fst pn ++ " " ++ snd pn) ps)
   end.
 
 Definition show_gres (g : gres) : string :=
